@@ -17,6 +17,7 @@ NOT_DECIDED = "UTF-8 fidelity (the reader uses from_utf8_lossy), ragged Rows, ti
 ASSUMPTIONS = ["std::io::Read::read_exact fails on a short read"]
 
 REQ, RESP, SC = "tcp::Request", "tcp::Response", "tcp::StatusCode"
+PROG = [None]
 
 
 def pushed_consts(f, blocks):
@@ -25,8 +26,9 @@ def pushed_consts(f, blocks):
     for c in f.calls():
         if c.bb in blocks and c.callee.endswith("Vec::<T, A>::push") or (c.bb in blocks and c.callee.endswith("::push") and "Vec" in c.callee):
             k = op_const(c.args[1])
-            if k and "v" in k:
-                out.append(("byte", k["v"]))
+            kv = core.const_value(PROG[0], k)
+            if kv is not None:
+                out.append(("byte", kv))
             else:
                 l = op_local(c.args[1])
                 if l is not None:
@@ -50,6 +52,7 @@ def built_variant(f, blocks, adt):
 
 def check(cx):
     p = cx.p
+    PROG[0] = p
     # ---- C20.1 request opcodes -------------------------------------------------------------------
     r1 = cx.rule("C20.1", "TAB: Request::to_bytes (variant -> opcode) and Request::from_bytes (opcode -> variant) are "
                  "inverse bijections over all variants", floor=12)
